@@ -18,8 +18,18 @@ Inverse-pair contracts, each with a per-type abstraction function that abstracts
   M1  view(loads(dumps(metadata))) == view(metadata), view = structural dump + CREATE TABLE DDL per dialect
   L1  loads(dumps(option)) has the same cache key and yields the same ORM-compiled SQL on select(entity).options(option)
   S1  serializer.loads(serializer.dumps(stmt), metadata) compiles to the same string and parameters on two dialects and
-      returns the same rows on SQLite
+      returns the same rows on SQLite (DML: has the same effect on the tables, observed inside a rolled-back transaction)
+  S2  serializer.loads(serializer.dumps(x), metadata) is x  for a Table / a Column of a Table of that MetaData
 for pickle protocols 2..5.
+
+Scope of S1 / S2 (exact numbers in coverage.scope): (a) a fixed catalogue of ORM / Core statements over the un-schema'd mappings;
+(b) GENERATED over a second MetaData whose table names are not unique — "users" without a schema and in the schemas "archive" and
+"attic", "things" in both schemas only, "notes" without a schema, foreign keys across schemas, every table with a column whose
+.key differs from its .name, three mapped classes on them — every statement shape (whole table, column list + where, alias,
+alias self-join, subquery, CTE, labels + aggregate, scalar subquery, correlated exists, bare criterion, bare Table, every bare
+Column, INSERT / UPDATE / DELETE) x every table, every pair shape (join, IN-subquery, UNION ALL, foreign-key join) x every
+ordered pair of tables, plus ORM statements on the schema-qualified classes; executed on SQLite with the schemas ATTACHed, each
+table holding different rows.
 """
 import json
 import pickle
@@ -608,6 +618,161 @@ def part_serializer(results):
                 results.fail(case, "no-exception", "round trip succeeds", f"{type(ex).__name__}: {ex}"[:300])
 
 
+# ------------------------------------------------------------------------------------------------ part S2: ext.serializer, schemas
+# A second MetaData in which table NAMES are not unique: the same name without a schema and in two schemas, a name that only
+# exists in schemas, foreign keys across schemas, and columns whose .key differs from their .name.  (module level: the two mapped
+# classes must be importable for the serializer's mapper ids.)
+from sqlalchemy import MetaData as _MetaData  # noqa: E402
+
+SMD = _MetaData()
+
+
+def _users(schema):
+    return Table("users", SMD, Column("id", Integer, primary_key=True), Column("name", String(50)), Column("user_rank", Integer, key="rank"), schema=schema)
+
+
+def _things(schema, users_ref):
+    return Table("things", SMD, Column("id", Integer, primary_key=True), Column("user_id", ForeignKey(users_ref)),
+                 Column("label_text", String(50), key="label"), schema=schema)
+
+
+S_TABLES = {
+    "users": _users(None), "archive.users": _users("archive"), "attic.users": _users("attic"),
+    "archive.things": _things("archive", "archive.users.id"), "attic.things": _things("attic", "users.id"),
+    "notes": Table("notes", SMD, Column("id", Integer, primary_key=True), Column("thing_id", ForeignKey("archive.things.id")),
+                   Column("note_body", String(50), key="body")),
+}
+SBase = declarative_base(metadata=SMD)
+
+
+class LiveUser(SBase):
+    __table__ = S_TABLES["users"]
+
+
+class ArchUser(SBase):
+    __table__ = S_TABLES["archive.users"]
+    things = relationship("ArchThing", order_by="ArchThing.id")
+
+
+class ArchThing(SBase):
+    __table__ = S_TABLES["archive.things"]
+
+
+def schema_env():
+    """SQLite with two ATTACHed in-memory databases standing for the schemas; every table holds different rows"""
+    if "se" in _ENV:
+        return _ENV["se"]
+    from sqlalchemy import create_engine, event
+    from sqlalchemy.pool import StaticPool
+    e = create_engine("sqlite://", poolclass=StaticPool)
+
+    @event.listens_for(e, "connect")
+    def _attach(dbapi_conn, rec):
+        dbapi_conn.execute("ATTACH DATABASE ':memory:' AS archive")
+        dbapi_conn.execute("ATTACH DATABASE ':memory:' AS attic")
+    with e.begin() as c:
+        SMD.create_all(c)
+        for n, (k, t) in enumerate(S_TABLES.items()):
+            if t.name == "users":
+                c.execute(t.insert(), [dict(id=i, name=f"{k}#{i}", rank=10 * n + i) for i in range(1, 3 + n)])
+            elif t.name == "things":
+                c.execute(t.insert(), [dict(id=i, user_id=1 + i % 2, label=f"{k}#{i}") for i in range(1, 3 + n)])
+            else:
+                c.execute(t.insert(), [dict(id=i, thing_id=i, body=f"{k}#{i}") for i in range(1, 4)])
+    _ENV["se"] = e
+    return e
+
+
+def schema_statements():
+    """-> list of (name, kind, statement); generated: every shape x every table, every pair shape x every ordered pair of tables"""
+    from sqlalchemy import select, func, and_, exists, union_all, insert, update, delete
+    from sqlalchemy.orm import aliased
+    out = []
+    for k, t in S_TABLES.items():
+        pk = t.c.id
+        other = [c for c in t.c if c is not pk]
+        odd = [c for c in t.c if c.key != c.name][0]
+        a = t.alias("a1")
+        sq = select(t).where(pk > 0).subquery("sq")
+        cte = select(pk, odd).cte("ct")
+        out += [
+            (f"{k}|select-table", "select", select(t).order_by(pk)),
+            (f"{k}|select-columns-where", "select", select(pk, odd).where(and_(pk > 0, odd.is_not(None))).order_by(pk.desc())),
+            (f"{k}|alias", "select", select(a.c.id, a.c[odd.key]).where(a.c.id > 1).order_by(a.c.id)),
+            (f"{k}|alias-self-join", "select", select(pk, a.c.id).join_from(t, a, a.c.id >= pk).order_by(pk, a.c.id)),
+            (f"{k}|subquery", "select", select(sq.c.id, sq.c[odd.key]).order_by(sq.c.id)),
+            (f"{k}|cte", "select", select(cte.c.id).where(cte.c[odd.key].is_not(None)).order_by(cte.c.id)),
+            (f"{k}|labels-func", "select", select(other[0].label("o"), func.count(pk).label("n")).group_by(other[0]).order_by(other[0])),
+            (f"{k}|scalar-subquery", "select", select(pk).where(pk == select(func.max(a.c.id)).scalar_subquery())),
+            (f"{k}|exists-correlated", "select", select(pk).where(exists().where(a.c.id > pk)).order_by(pk)),
+            (f"{k}|criterion", "expr", and_(pk > 1, odd.in_([1, 2]))),
+            (f"{k}|table", "identity", t),
+            (f"{k}|insert", "dml", insert(t).values({pk: 99, odd: None})),
+            (f"{k}|update", "dml", update(t).where(pk == 1).values({odd: None})),
+            (f"{k}|delete", "dml", delete(t).where(pk > 100)),
+        ]
+        out += [(f"{k}|column:{c.key}", "identity", c) for c in t.c]
+    keys = list(S_TABLES)
+    for k1 in keys:
+        for k2 in keys:
+            if k1 == k2:
+                continue
+            t, u = S_TABLES[k1], S_TABLES[k2]
+            out += [
+                (f"{k1}+{k2}|join", "select", select(t.c.id, u.c.id, list(t.c)[1], list(u.c)[2]).join_from(t, u, t.c.id == u.c.id).order_by(t.c.id)),
+                (f"{k1}+{k2}|in-subquery", "select", select(t.c.id).where(t.c.id.in_(select(u.c.id).where(u.c.id > 1))).order_by(t.c.id)),
+            ]
+            if k1 < k2:
+                out.append((f"{k1}+{k2}|union", "select", union_all(select(t.c.id, list(t.c)[2]), select(u.c.id, list(u.c)[2]))))
+            if any(fk.column.table is u for fk in t.foreign_keys):
+                out.append((f"{k1}+{k2}|fk-join", "select", select(t.c.id, u.c.id).join_from(t, u).order_by(t.c.id)))
+    au = aliased(ArchUser)
+    out += [
+        ("orm:ArchUser|entity", "select", select(ArchUser).where(ArchUser.rank > 0).order_by(ArchUser.id)),
+        ("orm:LiveUser|entity", "select", select(LiveUser).where(LiveUser.rank > 0).order_by(LiveUser.id)),
+        ("orm:ArchUser+LiveUser|columns-join", "select", select(ArchUser.id, LiveUser.name, ArchUser.name).join(LiveUser, LiveUser.id == ArchUser.id).order_by(ArchUser.id)),
+        ("orm:ArchUser|aliased", "select", select(au.id, au.rank).where(au.id > 1).order_by(au.id)),
+        ("orm:ArchUser+ArchThing|relationship-join", "select", select(ArchUser.id, ArchThing.label).join(ArchUser.things).order_by(ArchThing.id)),
+        ("orm:ArchUser|relationship-any", "select", select(ArchUser.id).where(ArchUser.things.any(ArchThing.label.is_not(None))).order_by(ArchUser.id)),
+        ("orm:ArchUser.rank|attribute", "expr", ArchUser.rank > 5),
+    ]
+    return out
+
+
+def part_serializer_schema(results):
+    from sqlalchemy.ext import serializer
+    from sqlalchemy.orm import Session
+    e = schema_env()
+    for name, kind, st in schema_statements():
+        for proto in PROTOCOLS:
+            case = dict(part="serializer-schema", subject=name, protocol=proto)
+            try:
+                st2 = serializer.loads(serializer.dumps(st, proto), SMD)
+                if kind == "identity":
+                    def ident(x):
+                        tb = getattr(x, "table", x)
+                        return [type(x).__name__, str(getattr(tb, "key", None)), str(getattr(x, "key", None)), "same object" if x is st else "another object"]
+                    results.check(case, "S2 a Table / Column deserialises to the very Table / Column of the given MetaData", ident(st), ident(st2), True)
+                    continue
+                results.check(case, "S1 same compiled SQL and parameters", stmt_view(st), stmt_view(st2), True)
+                if kind == "select":
+                    with Session(e) as s:
+                        r1 = [[abstract(x) for x in r] for r in s.execute(st).unique().all()]
+                    with Session(e) as s:
+                        r2 = [[abstract(x) for x in r] for r in s.execute(st2).unique().all()]
+                    results.check(dict(case, subject=name + ":rows"), "S1 same rows", r1, r2, bool(r1))
+                elif kind == "dml":
+                    rows = []
+                    for x in (st, st2):
+                        with e.connect() as c:
+                            c.execute(x)
+                            rows.append({k: [list(r) for r in c.execute(t.select().order_by(t.c.id))] for k, t in S_TABLES.items()})
+                            c.rollback()
+                    results.check(dict(case, subject=name + ":effect"), "S1 same effect on the tables (rolled back)", rows[0], rows[1], True)
+            except Exception as ex:  # noqa: BLE001
+                results.fail(case, "no-exception", "round trip succeeds", f"{type(ex).__name__}: {ex}"[:300])
+
+
 # ------------------------------------------------------------------------------------------------ driver
 class Results:
     def __init__(self):
@@ -647,9 +812,11 @@ def diff_of(a, b, path="", out=None, limit=6):
     return out
 
 
-PARTS = {"orm": part_orm, "rows": part_rows, "metadata": part_metadata, "loader-option": part_loader_options, "serializer": part_serializer}
+PARTS = {"orm": part_orm, "rows": part_rows, "metadata": part_metadata, "loader-option": part_loader_options, "serializer": part_serializer,
+         "serializer-schema": part_serializer_schema}
 FUNCTION_OF = {"orm": "InstanceState.__getstate__/__setstate__", "rows": "BaseRow.__reduce__/CursorResultMetaData.__getstate__", "metadata": "MetaData.__getstate__/__setstate__",
-               "loader-option": "Load.__getstate__/__setstate__", "serializer": "ext.serializer.dumps/loads"}
+               "loader-option": "Load.__getstate__/__setstate__", "serializer": "ext.serializer.dumps/loads",
+               "serializer-schema": "ext.serializer.dumps/loads"}
 
 
 def run_all(parts=None):
@@ -698,7 +865,12 @@ def run(run, tier, seed, args):
               "modified, pending collection mutation, marked deleted; two mappings: parent-child with deferred column, self-referential tree with many-to-many and "
               "column_property) x pickle protocols 2-5 and the bare __setstate__(__getstate__()) pair and re-attachment; %d row sources (text / Core / ORM, 1-3 columns, "
               "duplicate keys, empty) as row lists, single rows and frozen results; 4 MetaData objects + a lone Table; %d loader options; %d statements through "
-              "ext.serializer on 2 dialects + rows on SQLite" % (len(orm_makers()), sum(len(x) for x in row_sources()), len(loader_options()), len(serializer_statements())),
+              "ext.serializer on 2 dialects + rows on SQLite; plus %d generated statements / expressions / Table / Column objects through ext.serializer over a "
+              "MetaData with %d tables %s (same table name without schema and in two ATTACHed SQLite schemas, names that exist only in schemas, cross-schema "
+              "foreign keys, column key != name): 14 single-table shapes + every bare Column x every table, 2-4 pair shapes x every ordered pair of tables, "
+              "%d ORM statements on classes mapped to the schema tables; SQL text + parameters on 2 dialects, rows / DML effect on SQLite, object identity for "
+              "Table / Column" % (len(orm_makers()), sum(len(x) for x in row_sources()), len(loader_options()), len(serializer_statements()),
+                                  len(schema_statements()), len(S_TABLES), sorted(S_TABLES), sum(1 for n, _, _ in schema_statements() if n.startswith("orm:"))),
         contract_failures=len(res.fails), wall_s=round(time.time() - t0, 1))
     run.assumptions += [
         "pickle itself; classes importable at module level (checks.C51)",
